@@ -88,7 +88,13 @@ func (sll *LinuxSLL) DecodeFromBytes(data []byte, df gopacket.DecodeFeedback) er
 	sll.AddrType = binary.BigEndian.Uint16(data[2:4])
 	sll.AddrLen = binary.BigEndian.Uint16(data[4:6])
 
-	sll.Addr = net.HardwareAddr(data[6 : sll.AddrLen+6])
+	// The address field is 8 bytes long: of a longer address (e.g.
+	// InfiniBand) only the first 8 bytes are present.
+	addrLen := sll.AddrLen
+	if addrLen > 8 {
+		addrLen = 8
+	}
+	sll.Addr = net.HardwareAddr(data[6 : addrLen+6])
 	sll.EthernetType = EthernetType(binary.BigEndian.Uint16(data[14:16]))
 	sll.BaseLayer = BaseLayer{data[:16], data[16:]}
 
